@@ -257,7 +257,8 @@ func c01Extra(c *Ctx) {
 func c20Extra(c *Ctx) {
 	p := c.P
 	c.Rule("ERRORS-AS", "annotation sets are recognised with errors.As, never by a direct type assertion (they arrive wrapped)", 4)
-	c.Rule("ESCAPE-ORDER", "the escape character itself is escaped first (or in a single pass)", 2)
+	// (instances: the escaping helpers of bufanalysis, and - in c20Encoded - every escaper application in the
+	// github-actions printer, so that inlining the helpers does not empty the rule)
 	nAs := 0
 	for _, pk := range p.ModulePkgs() {
 		rel := relPkg(pk.PkgPath)
